@@ -133,7 +133,7 @@ pub fn run_fault_case(case: &FaultCase, dir: &Path) -> CaseResult {
     rm_rf(&run_root);
     let dry = run_child(&case.work, &run_root, dir, None, &[("WL_NO_SWEEPS", "1")]);
     if dry.status != "ok" {
-        return done(stats, Some(fail(died_class(&dry.status), format!("fault-free run did not finish: {}", dry.status), json!({}))), false);
+        return done(stats, Some(fail(if dry.status.starts_with("hung") { "harness-child-timeout" } else { died_class(&dry.status) }, format!("fault-free run did not finish: {}", dry.status), json!({}))), false);
     }
     let mut class = CLASSES[case.fault.class as usize % CLASSES.len()];
     let op = OPS[case.fault.op as usize % OPS.len()];
@@ -162,7 +162,19 @@ pub fn run_fault_case(case: &FaultCase, dir: &Path) -> CaseResult {
 
     // ---- pass 2: the same workload with the fault ----
     rm_rf(&run_root);
-    let run = run_child(&case.work, &run_root, dir, Some(&spec), &[]);
+    let mut run = run_child(&case.work, &run_root, dir, Some(&spec), &[]);
+    if run.status.starts_with("hung") {
+        // the fault-free pass of the same workload finished: a process that stops responding after the fault is the
+        // store not returning from a call. Confirm by running it once more before reporting.
+        rm_rf(&run_root);
+        let again = run_child(&case.work, &run_root, dir, Some(&spec), &[]);
+        if again.status.starts_with("hung") {
+            let last = again.trace.iter().rev().find(|t| t.op == OP_MARK).map(|t| String::from_utf8_lossy(&t.data).to_string()).unwrap_or_default();
+            return done(stats, Some(fail("store-stopped-responding-after-the-fault", format!("with fault {spec} the workload process never finished (twice; the fault-free run of the same workload finishes): the last marker it wrote was '{last}' (B n = commit n begun, S i = step i begun)"), json!({"fault": spec}))), false);
+        }
+        stats.inc("child_hung_once_not_reproduced");
+        run = again;
+    }
     let aux0 = json!({"fault": spec, "class": class, "op": op});
     if run.status != "ok" {
         // a panic or abort of the store under an I/O error
